@@ -680,6 +680,7 @@ def _token_tables_and_segments(ctx: Ctx):
                 n_tab += 1
     col.count("token_table_sign_tests", n_tab)
     col.floor("token_table_sign_tests", n_tab, 2)
+    _ali_moments_table(ctx)
     f = pkg.func(f"{MOD}::_print_torch_ali_data_dir_length_moments")
     from sa.defuse import ReachingDefs
     rd = ReachingDefs(f.node)
@@ -693,6 +694,49 @@ def _token_tables_and_segments(ctx: Ctx):
            f"`{u(ucs[0])[:60]}` computes the runs of a tensor that already depends on `{excl[0]}`: removing excluded frames before "
            f"forming runs joins the segments on both sides of an excluded stretch (3 3 3 sil sil 3 3 3 counts as one segment of "
            f"length 6); whole runs must be dropped after they are formed", rel, ucs[0].lineno)
+
+
+def _ali_moments_table(ctx: Ctx):
+    """S8 by value: the per-file worker of print-torch-ali-data-dir-length-moments interpreted over exact values (sa/interp.py +
+    sa/teval.py; torch.load answered with the alignment): the returned (sum, sum of squares, count) are those of the lengths of the
+    maximal runs whose label is none of the excluded ids - for no, one, a repeated, two and three excluded ids (a run is dropped
+    when its label equals ANY of them)."""
+    from sa.interp import Interp
+    from sa.inteval import NotEvaluable
+    from sa.teval import frac_array
+    col, pkg = ctx.col, ctx.pkg
+    f = pkg.func(f"{MOD}::_print_torch_ali_data_dir_length_moments")
+    rel = f.module.relname
+    names = [p_.name for p_ in f.params]
+    alis = ([0, 0, 0, 5, 5, 9, 9, 9, 9, 0, 7, 7, 5], [3], [0, 0, 0, 0])
+    excls = (None, [0], [0, 0], [0, 9], [9, 0, 42], [5, 7, 9])
+    bad, n = None, 0
+    try:
+        for ali in alis:
+            for ex in excls:
+                def leaf(x, env, ali=ali):
+                    if isinstance(x, ast.Call) and call_name(x) == "torch.load":
+                        return frac_array(ali)
+                    return None
+                kind, got = Interp(leaf=leaf, tensors=True).run(f.node, dict(zip(names, ("<file>", frac_array(ex) if ex is not None else None))))
+                n += 1
+                runs = []
+                for v_ in ali:
+                    if runs and runs[-1][0] == v_:
+                        runs[-1][1] += 1
+                    else:
+                        runs.append([v_, 1])
+                lens = [l_ for v_, l_ in runs if ex is None or v_ not in ex]
+                want = (sum(lens), sum(l_ * l_ for l_ in lens), len(lens))
+                ok = kind == "return" and isinstance(got, tuple) and len(got) == 3 and tuple(int(g_) for g_ in got) == want
+                if not ok and bad is None:
+                    bad = (ali, ex, got if kind == "return" else f"raises {got}", want)
+    except (NotEvaluable, TypeError, ValueError):
+        return
+    col.count("ali_moments_table_rows", n)
+    col.ob("G12", "S8", f"{rel}::_print_torch_ali_data_dir_length_moments::moments-table", bad is None,
+           (f"for the alignment {bad[0]} with excluded ids {bad[1]} the worker returns (sum, sum of squares, count) = {tuple(str(g_) for g_ in bad[2]) if isinstance(bad[2], tuple) else bad[2]}; "
+            f"the lengths of the runs whose label is not excluded give {bad[3]}") if bad else "", rel, f.line, sample=dict(rows=n))
 
 
 def _mutants():
